@@ -76,7 +76,9 @@ Step(M, st) ==
                !.cand = [c \in CIds |-> IF c = c0 /\ @[c] = "" /\ cerHost # "" THEN cerHost ELSE @[c]],
                !.prevRx = [c \in CIds |-> IF feed /\ c = c0 /\ M0.lastRx[c] < now THEN M0.lastRx[c] ELSE @[c]],
                !.lastRx = [c \in CIds |-> IF feed /\ c = c0 THEN now ELSE @[c]],
-               !.wait = [c \in CIds |-> IF dwrs(c) >= 1 THEN TRUE ELSE IF c = c0 /\ fedDwa THEN FALSE ELSE @[c]],
+               \* a DWA received in the same second as a DWR is sent: unordered, take the node's own view
+               !.wait = [c \in CIds |-> IF dwrs(c) >= 1 /\ c = c0 /\ fedDwa THEN CstOf(st.snap, c) = "WAITDWA"
+                                        ELSE IF dwrs(c) >= 1 THEN TRUE ELSE IF c = c0 /\ fedDwa THEN FALSE ELSE @[c]],
                !.dwrAt = [c \in CIds |-> IF dwrs(c) >= 1 THEN now ELSE @[c]],
                !.gone = [c \in CIds |-> @[c] \/ closed(c) \/ dprFed(c) \/ (st.act.a \in {"peer_close", "peer_reset"} /\ st.act.c = c)]]
       M3 == [M2 EXCEPT !.rdy = [c \in CIds |-> @[c] \/ (M0.dir[c] = "in" /\ succIn(c)) \/ succOut(c)],
